@@ -1168,7 +1168,7 @@ class Store:
             for child, inner_value in value.items():
                 if child not in self.inner:
                     if self.subschema:
-                        self.inner[child] = Store(self.subschema, self)
+                        self._create_subschema_child(child)
                     else:
                         pass
                         # TODO: continue to ignore extra keys?
@@ -1177,6 +1177,18 @@ class Store:
                     self.inner[child].set_value(inner_value)
         else:
             self.value = value
+
+    def _create_subschema_child(self, child):
+        """Create a child of a node that has a subschema.
+
+        When the subschema comes with a subtopology, its variables are
+        wired through it, as for children created by ``_add``.
+        """
+        if self.subtopology:
+            self.inner[child] = Store({}, self)
+            self._apply_subschema_path((child,))
+        else:
+            self.inner[child] = Store(self.subschema, self)
 
     def generate_value(self, value):
         """
@@ -1191,7 +1203,7 @@ class Store:
             for child, inner_value in value.items():
                 if child not in self.inner:
                     if self.subschema:
-                        self.inner[child] = Store(self.subschema, self)
+                        self._create_subschema_child(child)
                     else:
                         self._establish_path((child,), {})
 
